@@ -605,6 +605,25 @@ def run_awkward(spec, tier, seed, res, P, methods, attrs, funcs):
                     order = sorted(cols, key=lambda f: (salt + sum(map(ord, f))) % 7)
                     return ak.zip({f: cols[f] for f in order}, with_name=f"Momentum{dim}D", behavior=vba.behavior)
                 forms.append(("both-spellings-of-a-coordinate", both))
+            if dim >= 3:
+                def both_kinds():
+                    # a record that carries two *kinds* of coordinate for one group (z and eta; t and tau / E and mass) with
+                    # values that do not belong together: whichever the interpreter reads, compiled code reads too
+                    base = awk.build(system, rows, me, struct, route="with_name", spelling=salt % 3)
+                    cols = {f: base[f] for f in ak.fields(base)}
+                    sp = salt % 3
+                    if system[1] == "z":
+                        cols["eta"] = cols[B.names_for(system, me, sp)[2]] * 0.0 + 0.25
+                    else:
+                        cols["pz" if me else "z"] = cols[B.names_for(system, me, sp)[0]] * 0.0 + 7.5
+                    if dim == 4:
+                        if system[2] == "t":
+                            cols[("mass", "M", "m")[sp] if me else "tau"] = cols[B.names_for(system, me, sp)[0]] * 0.0 + 0.125
+                        else:
+                            cols[("E", "e", "energy")[sp] if me else "t"] = cols[B.names_for(system, me, sp)[0]] * 0.0 + 99.5
+                    order = sorted(cols, key=lambda f: (salt + sum(map(ord, f))) % 5)
+                    return ak.zip({f: cols[f] for f in order}, with_name=f"{'Momentum' if me else 'Vector'}{dim}D", behavior=vba.behavior)
+                forms.append(("two-kinds-of-coordinate-in-one-group", both_kinds))
             for fname, build in forms:
                 try:
                     arr = build()
